@@ -4,7 +4,7 @@
    the semantic operand sets exactly as the implementation does; those sets are produced by the implementation's
    role assignment, which is compared case by case and checked against architectural roles by the harness. *)
 From Coq Require Import List Bool String.
-From OV Require Import Model.Num Model.Pressure Model.Deps Proofs.DepsScan.
+From OV Require Import Model.Num Model.Pressure Model.Deps Model.Roles Proofs.DepsScan Proofs.Roles.
 Import ListNotations.
 
 (* an edge A -> B that is not a store-to-load edge exists iff B (one of the instructions after A) reads a register
@@ -33,6 +33,40 @@ Theorem C03_edge_weight : forall (T : Type) (N : NumOps T) fwd pidx (l : line (T
   edge_weight N fwd pidx l FPlain = l_lat_wo l /\ edge_weight N fwd pidx l FPIndexed = pidx /\
   edge_weight N fwd pidx l FStoreLoad = nadd N (l_lat_wo l) fwd.
 Proof. intros. repeat split. Qed.
+
+(* ---- roles (Model/Roles.v) ---- *)
+(* a dependency-breaking zero idiom written with equal register operands reads nothing *)
+Theorem C03_zero_idiom_reads_nothing : forall (T : Type) (dep : regop -> regop -> bool) x86 e ops (l : line (T:=T)),
+  e_idiom e = true -> all_equal_keys ops = true ->
+  no_mem (map fst ops) -> no_mem (map fst (e_hidden e)) ->
+  l_sem l = Some (assign_roles x86 (Some e) ops) ->
+  forall a, is_read dep a l = false.
+Proof. intros T dep. exact (@zero_idiom_reads_nothing T dep). Qed.
+Print Assumptions C03_zero_idiom_reads_nothing.
+
+(* forms without an ISA entry: x86 -- the last operand is the only destination *)
+Theorem C03_default_roles_x86 : forall ops : list popnd,
+  2 <= List.length ops ->
+  assign_roles true None ops = (removelast (map fst ops), [last (map fst ops) OOther], []).
+Proof. exact default_roles_x86. Qed.
+Print Assumptions C03_default_roles_x86.
+
+(* read-modify-write operands of an ISA entry are both read and written *)
+Theorem C03_rmw_in_srcdst : forall x86 e ops i o k,
+  andb (e_idiom e) (all_equal_keys ops) = false ->
+  nth_error ops i = Some (o, k) -> nth_error (e_roles e) i = Some (true, true) ->
+  let '(_, _, sd) := assign_roles x86 (Some e) ops in In (if x86 then o else mark_base o) sd.
+Proof. exact rmw_in_srcdst. Qed.
+Print Assumptions C03_rmw_in_srcdst.
+
+(* AArch64 pre/post-index: the base register of the memory operand is registered as read and written (write-back) *)
+Theorem C03_writeback_base_in_srcdst : forall e ops m b,
+  let '(s0, d0, sd0) := match e with Some en => apply_found en ops | None => default_roles false ops end in
+  (In (OMem m) s0 \/ In (OMem m) d0 \/ In (OMem m) sd0) ->
+  orb (m_pre m) (m_post m) = true -> m_base m = Some b ->
+  let '(_, _, sd) := assign_roles false e ops in In (OReg (mkR (r_name b) (r_prefix b) true)) sd.
+Proof. exact writeback_base_in_srcdst. Qed.
+Print Assumptions C03_writeback_base_in_srcdst.
 
 (* non-vacuity: a two-line kernel in which the second line reads what the first writes *)
 Example C03_nonvacuous :
